@@ -341,8 +341,9 @@ class GC(FileStorageFormatter):
                     else:
                         self.reachable[dh.oid] = dh.back
                         # The revision brought back refers to objects that
-                        # may be unreachable otherwise, too.
-                        extra_roots.append(dh.back)
+                        # may be unreachable otherwise, too.  It was garbage
+                        # at the pack time (see garbage_roots).
+                        garbage_roots.append(dh.back)
 
                 pos += dh.recordlen()
 
